@@ -346,6 +346,12 @@ Proof.
   destruct (round_up_count_spec (size + SPAN_HEADER_SIZE) psh ltac:(lia) ltac:(lia)) as (R1 & R2 & R3). lia.
 Qed.
 
+(* the scraped flag HUGE_OVERFLOW_GUARD is needed: huge_request's other branch (no guard: Some (huge_pages psh size))
+   violates huge_fit_full's clause - size + header wraps modulo 2^64 and one page is mapped for a request of 2^64-1 bytes *)
+Lemma huge_guard_needed : exists psh size, page_shift_ok psh /\ LARGE_SIZE_LIMIT < size < W64 /\
+  W64 - 1 - SPAN_HEADER_SIZE - 2 ^ psh < size /\ usable_size psh (BHuge (huge_pages psh size)) < size.
+Proof. exists 12, (W64 - 1). vm_compute. intuition discriminate. Qed.
+
 (* ------------------------------------------------------------------ *)
 (* realloc *)
 
